@@ -12,8 +12,10 @@ import (
 	"encoding/json"
 	"flag"
 	"fmt"
+	"hash/fnv"
 	"io"
 	"log/slog"
+	"math/rand"
 	"os"
 	"sort"
 	"strings"
@@ -60,6 +62,12 @@ type profile struct {
 	Traverse bool `json:"traverse"`  // issue VTraverse
 	RelOrder int  `json:"rel_order"` // 0: ascending, 1: descending order of relation names in arguments
 	MaxDiv   int  `json:"max_div"`   // divergences kept per graph
+	// Orders: extra edge-insertion orders under which every graph is rebuilt and queried again at the
+	// order-independent times (now, before everything, after the last event).  The answers of the
+	// specification do not depend on the order of the history's events, the traversal order of the
+	// implementation does.  Order 1 = the canonical history reversed as far as it can be, 2.. = seeded.
+	Orders int   `json:"orders"`
+	Seed   int64 `json:"seed"`
 	// relation paths given to VTraverse, as digit strings ("121" = r.q.r): the WalkSeqs constant of the TLC run
 	WalkSeqs []string `json:"walk_seqs"`
 }
@@ -74,6 +82,7 @@ type divergence struct {
 
 type output struct {
 	Graphs      int          `json:"graphs"`
+	Builds      int          `json:"builds"`  // graph instances built (graphs x insertion orders)
 	Queries     int          `json:"queries"` // calls of the four query interfaces
 	FindPath    int          `json:"findpath"`
 	PathsFound  int          `json:"paths_found"`
@@ -283,12 +292,16 @@ func (r *runner) closeEngine() {
 }
 
 type graphRun struct {
-	r    *runner
-	rec  *record
-	e    *engine.Engine
-	idx  string
-	ts   map[int]int64 // abstract event time -> real timestamp
-	ndiv int
+	r       *runner
+	rec     *record
+	e       *engine.Engine
+	idx     string
+	variant int           // 0: canonical history; >0: another insertion order
+	ts      map[int]int64 // abstract event time -> real timestamp (variant 0)
+	tsFirst int64         // real timestamp of the first / last event executed
+	tsLast  int64
+	history []string // the events in the order executed
+	ndiv    int
 }
 
 func (g *graphRun) diverge(kind string, op map[string]any, detail string, diff ...string) {
@@ -296,6 +309,12 @@ func (g *graphRun) diverge(kind string, op map[string]any, detail string, diff .
 	g.ndiv++
 	if g.ndiv > g.r.prof.MaxDiv {
 		return
+	}
+	if op != nil {
+		op["order"] = g.variant
+		if g.variant > 0 {
+			op["history"] = g.history
+		}
 	}
 	g.r.out.Divergences = append(g.r.out.Divergences, divergence{ID: g.rec.ID, Kind: kind, Op: op, Detail: detail, Diff: diff})
 }
@@ -336,17 +355,60 @@ func (g *graphRun) build() error {
 		}
 	}
 	sort.Slice(evs, func(i, j int) bool { return evs[i].at < evs[j].at })
-	g.ts = map[int]int64{}
-	var last int64
 	for i, x := range evs {
 		if x.at != int64(i+2) {
 			return fmt.Errorf("event times of the record are not 2..n: %v", rec.Vers)
 		}
+	}
+	if g.variant > 0 {
+		// another order of the same events; the events of one (s,t,r) keep their sequence
+		type key [3]int64
+		per := map[key][]ev{}
+		keys := []key{}
+		for _, x := range evs {
+			k := key{x.v[0], x.v[1], x.v[2]}
+			if _, ok := per[k]; !ok {
+				keys = append(keys, k)
+			}
+			per[k] = append(per[k], x)
+		}
+		h := fnv.New64a()
+		h.Write([]byte(rec.ID))
+		rng := rand.New(rand.NewSource(int64(h.Sum64()) ^ g.r.prof.Seed ^ int64(g.variant)*7919))
+		re := make([]ev, 0, len(evs))
+		for len(re) < len(evs) {
+			cand := []key{}
+			for _, k := range keys {
+				if len(per[k]) > 0 {
+					cand = append(cand, k)
+				}
+			}
+			pick := cand[0]
+			if g.variant == 1 { // latest canonical event first
+				for _, k := range cand {
+					if per[k][0].at > per[pick][0].at {
+						pick = k
+					}
+				}
+			} else {
+				pick = cand[rng.Intn(len(cand))]
+			}
+			re = append(re, per[pick][0])
+			per[pick] = per[pick][1:]
+		}
+		evs = re
+	}
+	g.ts = map[int]int64{}
+	created := map[[4]int64]int64{}
+	var last int64
+	for _, x := range evs {
 		for time.Now().UnixNano() < last+2000 { // strictly increasing engine timestamps, >= 2us apart
 		}
 		s, t, rel := node(int(x.v[0])), node(int(x.v[1])), relNames[x.v[2]]
+		vk := [4]int64{x.v[0], x.v[1], x.v[2], x.v[3]}
 		var got int64
 		if x.link {
+			g.history = append(g.history, fmt.Sprintf("link %s-%s->%s", s, rel, t))
 			if err := e.VLink(g.idx, s, t, rel, "", 1.0, nil); err != nil {
 				return fmt.Errorf("VLink: %w", err)
 			}
@@ -360,14 +422,16 @@ func (g *graphRun) build() error {
 				g.diverge("readback", map[string]any{"op": "VGetEdges", "s": s, "rel": rel, "T": 0}, fmt.Sprintf("edge %s-%s->%s just linked is not returned at T=0: %+v", s, rel, t, edges))
 				return nil
 			}
+			created[vk] = got
 		} else {
+			g.history = append(g.history, fmt.Sprintf("unlink %s-%s->%s", s, rel, t))
 			if err := e.VUnlink(g.idx, s, t, rel, "", false); err != nil {
 				return fmt.Errorf("VUnlink: %w", err)
 			}
-			created := g.ts[int(x.v[3])]
-			edges, _ := e.VGetEdges(g.idx, s, rel, created)
+			c := created[vk]
+			edges, _ := e.VGetEdges(g.idx, s, rel, c)
 			for _, ed := range edges {
-				if ed.TargetID == t && ed.CreatedAt == created {
+				if ed.TargetID == t && ed.CreatedAt == c {
 					got = ed.DeletedAt
 				}
 			}
@@ -379,14 +443,21 @@ func (g *graphRun) build() error {
 		if got <= last {
 			return fmt.Errorf("engine timestamps not strictly increasing (%d after %d)", got, last)
 		}
+		if g.tsFirst == 0 {
+			g.tsFirst = got
+		}
 		last = got
-		g.ts[int(x.at)] = got
+		g.tsLast = got
+		if g.variant == 0 {
+			g.ts[int(x.at)] = got
+		}
 	}
 	return nil
 }
 
 // concrete query times refining abstract time T: 0 -> now; 1 -> just before the first event;
 // a >= 2 -> exactly the timestamp of event a, and the last instant before event a+1.
+// Under another insertion order (variant > 0) only the order-independent times are queried.
 func (g *graphRun) times(T int) []int64 {
 	if T == 0 {
 		return []int64{0}
@@ -395,7 +466,13 @@ func (g *graphRun) times(T int) []int64 {
 		return []int64{time.Now().UnixNano() - 1000}
 	}
 	if T == 1 {
-		return []int64{g.ts[2] - 1}
+		return []int64{g.tsFirst - 1}
+	}
+	if g.variant > 0 {
+		if T == g.rec.Last {
+			return []int64{g.tsLast, g.tsLast + 3_600_000_000_000}
+		}
+		return nil
 	}
 	out := []int64{g.ts[T]}
 	if T < g.rec.Last {
@@ -416,7 +493,7 @@ func (g *graphRun) run() error {
 	if g.ndiv > 0 {
 		return nil
 	}
-	order := g.r.prof.RelOrder
+	order := (g.r.prof.RelOrder + g.variant) % 2 // the order of the relation arguments varies too
 	keys := make([][2]int, 0, len(rec.cases))
 	for k := range rec.cases {
 		keys = append(keys, k)
@@ -830,22 +907,30 @@ func main() {
 			out.Errors = append(out.Errors, fmt.Sprintf("%s: %v", rec.ID, err))
 			continue
 		}
-		var runErr error
-		for attempt := 0; attempt < 3; attempt++ {
-			e, err := r.engineFor()
-			if err != nil {
-				runErr = err
-				break
-			}
-			r.counter++
-			g := &graphRun{r: r, rec: rec, e: e, idx: fmt.Sprintf("g%d", r.counter)}
-			runErr = g.run()
-			if runErr == nil || !strings.Contains(runErr.Error(), "strictly increasing") {
-				break
-			}
+		variants := 1
+		if rec.Last >= 3 { // at least two events: their order can vary
+			variants += inp.Profile.Orders
 		}
-		if runErr != nil {
-			out.Errors = append(out.Errors, fmt.Sprintf("%s: %v", rec.ID, runErr))
+		for v := 0; v < variants; v++ {
+			var runErr error
+			for attempt := 0; attempt < 3; attempt++ {
+				e, err := r.engineFor()
+				if err != nil {
+					runErr = err
+					break
+				}
+				r.counter++
+				g := &graphRun{r: r, rec: rec, e: e, idx: fmt.Sprintf("g%d", r.counter), variant: v}
+				runErr = g.run()
+				if runErr == nil || !strings.Contains(runErr.Error(), "strictly increasing") {
+					break
+				}
+			}
+			if runErr != nil {
+				out.Errors = append(out.Errors, fmt.Sprintf("%s: %v", rec.ID, runErr))
+			}
+			out.Builds++
+			beat.Store(time.Now().UnixNano())
 		}
 		out.Graphs++
 	}
